@@ -58,7 +58,9 @@ func c18Configs(tier string) []c18Cfg {
 			out = append(out, c18Cfg{k, "drop", "PS", sink})
 		}
 	}
-	out = append(out, c18Cfg{"counting", "drop", "PS", "panic"}, c18Cfg{"cep", "drop", "PS", "reenter-stats"}, c18Cfg{"global", "block", "PSG", "plain"})
+	out = append(out, c18Cfg{"counting", "drop", "PS", "panic"}, c18Cfg{"cep", "drop", "PS", "reenter-stats"}, c18Cfg{"global", "block", "PSG", "plain"},
+		// MATCH_RECOGNIZE delivers its flushed matches from inside Stop (a different dispatch path)
+		c18Cfg{"cep", "drop", "PS", "reenter-addsink"}, c18Cfg{"cep", "drop", "PS", "panic"}, c18Cfg{"cep", "block", "PSG", "reenter-addsink"})
 	if tier == "thorough" {
 		for _, k := range c18KindOrder {
 			for _, sink := range []string{"panic", "reenter-stats"} {
